@@ -131,3 +131,16 @@ if [ ! -f srvekuunk-sign.cert.pem ]; then
   mk cliekuunk "client unknown eku" digitalSignature 1.3.6.1.4.1.99999.1.1 ""
   openssl x509 -in cliekuunk.cert.pem -noout -ext extendedKeyUsage
 fi
+# wave 8: CA-capable look-alikes: self-signed, subject and key identifier of root caA / of the SM2 intermediate, own keys
+if [ ! -f lookCA.cert.pem ]; then
+  lkca() { # name ref subj
+    SKID=$(openssl x509 -in $2.cert.pem -noout -ext subjectKeyIdentifier | tail -1 | tr -d ' :')
+    openssl genpkey -algorithm SM2 -out "$1.key.pem" 2>/dev/null
+    { echo "[req]"; echo "distinguished_name=dn"; echo "x509_extensions=v3"; echo "[dn]"; echo "[v3]"; echo "basicConstraints=critical,CA:TRUE"; echo "keyUsage=critical,keyCertSign,cRLSign"; echo "subjectKeyIdentifier=$SKID"; } > "$1.cnf"
+    openssl req -config "$1.cnf" -x509 -new -key "$1.key.pem" -subj "$3" -out "$1.cert.pem" -not_before $VB -not_after $VA -sm3 $D -set_serial $RANDOM$RANDOM
+    rm -f "$1.cnf"
+  }
+  lkca lookCA caA "/C=CN/O=verifsim/CN=verifsim SM2 root A"
+  lkca lookInt caAint "/C=CN/O=verifsim/CN=verifsim SM2 intermediate"
+  for c in lookCA lookInt; do openssl x509 -in $c.cert.pem -noout -subject -ext subjectKeyIdentifier,basicConstraints | tr '\n' ' '; echo; done
+fi
